@@ -67,6 +67,13 @@ type Case struct {
 	// OddApp: RAR and STR carry an application id that no dictionary declares (and that the
 	// state machine therefore does not list as supported); the commands resolve through base.
 	OddApp bool `json:"odd_app,omitempty"`
+	// DWRState: the peer's watchdog requests carry an Origin-State-Id (RFC 6733 allows it), also
+	// the ones it sends before any capabilities exchange.
+	DWRState bool `json:"dwr_state,omitempty"`
+	// TFlag: the peer's requests behind the first message of the history carry the T bit
+	// (potentially retransmitted, as after a link failover) - application requests, watchdog
+	// requests and repeated CERs alike.
+	TFlag bool `json:"t_flag,omitempty"`
 }
 
 // baseApp is the header application id of the peer's base-protocol application requests (RAR, STR).
@@ -159,6 +166,10 @@ func (c Case) wire(cerH refcodec.Header) (msgs [][]byte, hbh []uint32, cerOK []b
 		var b []byte
 		ok := false
 		session := str(cSessionID, "c10;"+strconv.Itoa(i))
+		flagRequest := uint8(flagRequest)
+		if c.TFlag && i > 0 {
+			flagRequest |= 0x10
+		}
 		switch s {
 		case "CER":
 			b, ok = message(flagRequest, cmdCE, 0, h, e, cerNodes(true, 4)...), true
@@ -181,7 +192,11 @@ func (c Case) wire(cerH refcodec.Header) (msgs [][]byte, hbh []uint32, cerOK []b
 		case "CEA-nohost":
 			b = message(0, cmdCE, 0, cerH.HopByHop, cerH.EndToEnd, append([]*refcodec.Node{u32(cResultCode, 2001)}, cerNodes(false, 4)...)...)
 		case "DWR":
-			b = message(flagRequest, cmdDW, 0, h, e, identity()...)
+			nodes := identity()
+			if c.DWRState {
+				nodes = append(nodes, u32(cOriginStateID, 1234))
+			}
+			b = message(flagRequest, cmdDW, 0, h, e, nodes...)
 		case "RAR":
 			b = message(flagRequest, cmdRA, c.baseApp(), h, e, append([]*refcodec.Node{session}, append(c.appIdentity(),
 				str(cDestRealm, ownRealm), str(cDestHost, ownHost), u32(cAuthAppID, 4), u32(cReAuthReqType, 0))...)...)
@@ -680,6 +695,8 @@ func variants(role string, hist []string, idx *uint64, yield func(Case) bool) bo
 			c.WrapCtx = (h>>12)%3 == 0
 			c.Relayed = (h>>16)%3 == 0
 			c.OddApp = (h>>20)%3 == 0
+			c.DWRState = (h>>24)%2 == 0
+			c.TFlag = (h>>26)%3 == 0
 			if role == "server" {
 				c.Listener = (h>>8)%2 == 0
 			} else {
@@ -772,6 +789,8 @@ func genServer(t *rapid.T) Case {
 	c.WrapCtx = rapid.IntRange(0, 2).Draw(t, "wrap-ctx") == 0
 	c.Relayed = rapid.IntRange(0, 2).Draw(t, "relayed") == 0
 	c.OddApp = rapid.IntRange(0, 2).Draw(t, "odd-app") == 0
+	c.DWRState = rapid.Bool().Draw(t, "dwr-state")
+	c.TFlag = rapid.IntRange(0, 2).Draw(t, "t-flag") == 0
 	return c
 }
 
@@ -788,6 +807,8 @@ func genClient(t *rapid.T) Case {
 	c.WrapCtx = rapid.IntRange(0, 2).Draw(t, "wrap-ctx") == 0
 	c.Relayed = rapid.IntRange(0, 2).Draw(t, "relayed") == 0
 	c.OddApp = rapid.IntRange(0, 2).Draw(t, "odd-app") == 0
+	c.DWRState = rapid.Bool().Draw(t, "dwr-state")
+	c.TFlag = rapid.IntRange(0, 2).Draw(t, "t-flag") == 0
 	return c
 }
 
@@ -810,6 +831,12 @@ func classify(c Case) (bool, []string) {
 	}
 	if c.OddApp {
 		cl = append(cl, "base-commands-under-an-undeclared-application-id")
+	}
+	if c.DWRState {
+		cl = append(cl, "watchdog-requests-carry-origin-state-id")
+	}
+	if c.TFlag {
+		cl = append(cl, "requests-carry-the-T-bit")
 	}
 	if len(c.Hist) > 4 {
 		cl = append(cl, "len>4")
@@ -887,7 +914,7 @@ func classify(c Case) (bool, []string) {
 	return nontrivial, cl
 }
 
-const ruleText = "histories a scripted peer sends to a fresh state machine behind the library's connection loop on an in-memory transport; server alphabet {acceptable CER, acceptable CER with application id 4 in the header, CER without common application, CER without Origin-Host, byte-identical retransmitted CER, DWR, RAR (registered by name), CCR app 4 (registered by index), STR and ASA (served only by the catch-all, unregistered when there is none), CCA (answer, registered by name)}, client alphabet = the same application messages, DWR, a CER of the peer, and exactly one CEA (success / 5010 / without Origin-Host) at any position; every history x catch-all registered or not x {one segment, one segment per message, fixed-size or random fragments}; the application also tries to register CER/CEA/DWR by name and by index; non-trivial = at least one application message before and one after a (successful or failed) CER (server) / CEA (client)"
+const ruleText = "histories a scripted peer sends to a fresh state machine behind the library's connection loop on an in-memory transport; server alphabet {acceptable CER, acceptable CER with application id 4 in the header, CER without common application, CER without Origin-Host, byte-identical retransmitted CER, DWR, RAR (registered by name), CCR app 4 (registered by index), STR and ASA (served only by the catch-all, unregistered when there is none), CCA (answer, registered by name)}, client alphabet = the same application messages, DWR, a CER of the peer, and exactly one CEA (success / 5010 / without Origin-Host) at any position; every history x catch-all registered or not x {one segment, one segment per message, fixed-size or random fragments}; the application also tries to register CER/CEA/DWR by name and by index; in half of the cases the watchdog requests carry an Origin-State-Id, in a third every request behind the first message carries the T bit; non-trivial = at least one application message before and one after a (successful or failed) CER (server) / CEA (client)"
 
 var propServer = ev.Register(&ev.Prop[Case]{ID: "C10", Name: "server", Rule: ruleText, Gen: genServer, Run: runCase, Classify: classify, Attempts: 3})
 var propClient = ev.Register(&ev.Prop[Case]{ID: "C10", Name: "client", Rule: ruleText, Gen: genClient, Run: runCase, Classify: classify, Attempts: 3})
